@@ -54,7 +54,9 @@ CONSTANTS
   AwardTos,     \* recipients offered to ExtAward
   EvPowers,     \* reported powers offered with evidence
   EvUnknown,    \* BOOLEAN: also offer evidence against addresses the application does not know
-  MaxRO         \* read-only calls (CheckTx / Simulate / Query) offered per block phase
+  MaxRO,        \* read-only calls (CheckTx / Simulate / Query) offered per block phase
+  ParamOwner,   \* the account the ACL names as owner of the pos parameters
+  ParamVals     \* values offered for pos/MaxValidators by "setparam" transactions
 
 FEE  == N + 1
 POOL == N + 2
@@ -99,6 +101,8 @@ PreGenesis ==
     bits |-> [v \in Users |-> {}],
     awardQ |-> [a \in Accts |-> 0], burnQ |-> [v \in Users |-> -1],   \* burnQ: -1 = no entry
     proposer |-> -1, pkrel |-> {},
+    \* the two pos parameters a governance transaction may change in this model
+    par |-> [maxVals |-> MaxVals, minStake |-> MinStake], minChanged |-> FALSE,
     \* Tendermint: vs[1] signs the next BeginBlock's LastCommitInfo, vs[2] is the set of the
     \* block begun next, vs[3] the one after (where EndBlock's updates land)
     vs |-> << [v \in Users |-> 0], [v \in Users |-> 0], [v \in Users |-> 0] >>,
@@ -189,7 +193,7 @@ Slash(s, v, infH, power, num) ==
         logged == [s1 EXCEPT !.slashLog = Append(@, [v |-> v, power |-> power, num |-> num, before |-> rec.tokens, burn |-> burn])]
     IN IF ~CanBurnStaked(logged, burn) THEN logged     \* ErrBurnStakedTokens: returns before the minimum check
        ELSE LET s2 == BurnFrom(logged, POOL, burn)
-            IN IF rec1.tokens < MinStake THEN ForceUnstake(s2, v).s ELSE s2
+            IN IF rec1.tokens < s.par.minStake THEN ForceUnstake(s2, v).s ELSE s2
 
 \* valStateChanges.go JailValidator (caller made sure it is not jailed)
 JailValidator(s, v) ==
@@ -206,7 +210,7 @@ HandleStake(s, v, amt) ==
   LET rec == IF s.val[v].ex THEN s.val[v] ELSE [NoVal EXCEPT !.ex = TRUE]
   IN IF rec.status # Unstaked THEN Err(s)                   \* ErrValidatorStatus
      ELSE IF s.sinfo[v].ex /\ s.sinfo[v].tomb /\ "TombstoneRejoin" \notin Dev THEN Err(s)   \* ErrValidatorTombstoned
-     ELSE IF amt < MinStake THEN Err(s)                      \* ErrMinimumStake
+     ELSE IF amt < s.par.minStake THEN Err(s)                      \* ErrMinimumStake
      ELSE IF ~HasCoins(s, v, amt) THEN Err(s)                \* ErrNotEnoughCoins
      ELSE LET s1 == IF s.val[v].ex THEN s
                     ELSE [SetVal(s, v, rec) EXCEPT !.pkrel = @ \cup {v}]   \* RegisterValidator
@@ -217,14 +221,14 @@ HandleBeginUnstake(s, v) ==
   LET rec == s.val[v]
   IN IF ~rec.ex THEN Err(s)                                  \* ErrNoValidatorFound
      ELSE IF rec.status # Staked THEN Err(s)                 \* ErrValidatorStatus
-     ELSE IF rec.tokens < MinStake THEN Err(s)               \* panic, recovered by runTx
+     ELSE IF rec.tokens < s.par.minStake THEN Err(s)         \* panic, recovered by runTx
      ELSE LET s1 == DeleteFromStakingSet(s, v, rec)
               rec1 == [rec EXCEPT !.status = Unstaking, !.uat = s.time + UnstakeTime]
           IN Ok(SetUnstakingValidator(SetVal(s1, v, rec1), v, rec1))
 
 UnjailAllowed(s, v) ==
   /\ s.val[v].ex
-  /\ s.val[v].tokens >= MinStake
+  /\ s.val[v].tokens >= s.par.minStake
   /\ s.val[v].jailed
   /\ s.sinfo[v].ex
   /\ ~s.sinfo[v].tomb
@@ -238,6 +242,13 @@ HandleUnjail(s, v) ==
 HandleSend(s, from, to, amt) ==
   IF ~HasCoins(s, from, amt) THEN Err(s)
   ELSE Ok([Send(s, from, to, amt) EXCEPT !.donated = IF to = POOL THEN @ + amt ELSE @])
+
+\* x/gov ModifyParam for pos/MaxValidators (to = 1) and pos/StakeMinimum (to = 2), value in amt;
+\* only the ACL owner (ParamOwner) may change a parameter
+HandleSetParam(s, a) ==
+  IF a.from # ParamOwner THEN Err(s)
+  ELSE IF a.to = 1 THEN Ok([s EXCEPT !.par = [@ EXCEPT !.maxVals = a.amt]])
+  ELSE Ok([s EXCEPT !.par = [@ EXCEPT !.minStake = a.amt], !.minChanged = @ \/ a.amt # s.par.minStake])
 
 -----------------------------------------------------------------------------
 (* BaseApp.DeliverTx: decode -> ValidateBasic -> ante (authorise, deduct fee) -> handler *)
@@ -256,6 +267,7 @@ DeliverTx(s, a) ==
                [] a.kind = "unstake" -> HandleBeginUnstake(s1, a.from)
                [] a.kind = "unjail"  -> HandleUnjail(s1, a.from)
                [] a.kind = "send"    -> HandleSend(s1, a.from, a.to, a.amt)
+               [] a.kind = "setparam" -> HandleSetParam(s1, a)
     IN [r.s EXCEPT !.lastRes = IF r.ok THEN "ok" ELSE IF a.fee > 0 THEN "rej_post" ELSE "rej_pre",
                    !.ntx = @ + 1]
 
@@ -361,7 +373,7 @@ BeginBlock(s, a) ==
 (* EndBlocker *)
 
 RankBefore(e, f) == e[1] > f[1] \/ (e[1] = f[1] /\ e[2] < f[2])    \* power desc, address asc
-TopOfIndex(s) == {e \in s.pidx : Cardinality({f \in s.pidx : RankBefore(f, e)}) < MaxVals}
+TopOfIndex(s) == {e \in s.pidx : Cardinality({f \in s.pidx : RankBefore(f, e)}) < s.par.maxVals}
 
 \* valStateChanges.go UpdateTendermintValidators
 UpdateTendermintValidators(s) ==
@@ -388,7 +400,8 @@ UnstakeMature(s) ==
         IF i > Len(ids) \/ t.halt # "" THEN t
         ELSE LET v == ids[i]
                  rec == t.val[v]
-             IN IF ~rec.ex \/ rec.status # Unstaking \/ rec.tokens < MinStake THEN bucket(t, ids, i + 1)
+             IN IF ~rec.ex \/ rec.status # Unstaking
+                   \/ ("FinishNeedsMinStake" \in Dev /\ rec.tokens < t.par.minStake) THEN bucket(t, ids, i + 1)
                 ELSE IF t.bal[POOL] < rec.tokens THEN [t EXCEPT !.halt = "mature-pool-underfunded"]
                 ELSE LET t1 == DeleteUnstakingValidator(t, v, rec)
                          t2 == Send(t1, POOL, v, rec.tokens)
@@ -484,6 +497,8 @@ TxChoices(s) ==
         \cup (IF "unstake" \in Kinds THEN {T("unstake", v, 0, 0, Fee, "none") : v \in Users} ELSE {})
         \cup (IF "unjail" \in Kinds THEN {T("unjail", v, 0, 0, Fee, "none") : v \in Users} ELSE {})
         \cup (IF "send" \in Kinds THEN {T("send", v, w, x, Fee, "none") : v \in Users, w \in SendTos, x \in Amts} ELSE {})
+        \cup (IF "setparam" \in Kinds THEN {T("setparam", v, 1, x, Fee, "none") : v \in Users, x \in ParamVals}
+                                            \cup {T("setparam", v, 2, x, Fee, "none") : v \in {ParamOwner}, x \in {MinStake, MinStake + 1}} ELSE {})
       badtx ==
         IF ~BadTxOn THEN {}
         ELSE {T("send", v, 1, 1, Fee, b) : v \in Users, b \in {"garbage", "sig", "mut", "replay"}}
@@ -539,7 +554,7 @@ PoolBacksStake(s) == s.bal[POOL] = Backed(s) + s.donated
 \* C05
 TopN(s) ==
   LET cand == {<< Power(s.val[v].tokens), v >> : v \in {u \in Users : s.val[u].ex /\ s.val[u].status = Staked /\ ~s.val[u].jailed}}
-  IN {e \in cand : Cardinality({f \in cand : RankBefore(f, e)}) < MaxVals}
+  IN {e \in cand : Cardinality({f \in cand : RankBefore(f, e)}) < s.par.maxVals}
 TmIsTopN(s) == s.phase \in {"ended", "committed"} =>
                  \A v \in Users : s.vs[3][v] = IF \E e \in TopN(s) : e[2] = v THEN Power(s.val[v].tokens) ELSE 0
 UpdatesApplicable(s) == s.updOk
@@ -549,7 +564,8 @@ IndexExact(s) == s.pidx = {<< Power(s.val[v].tokens), v >> : v \in {u \in Users 
 QueueComplete(s) == \A v \in Users : (s.val[v].ex /\ s.val[v].status = Unstaking) =>
                        \E e \in s.uq : e.t = s.val[v].uat /\ v \in SeqToSet(e.ids)
 QueueSound(s) == \A e \in s.uq : \A v \in SeqToSet(e.ids) : s.val[v].ex /\ s.val[v].status = Unstaking /\ s.val[v].uat = e.t
-MinStakeHeld(s) == \A v \in Users : (s.val[v].ex /\ s.val[v].status # Unstaked) => s.val[v].tokens >= MinStake
+\* (while the minimum-stake parameter is unchanged)
+MinStakeHeld(s) == s.minChanged \/ \A v \in Users : (s.val[v].ex /\ s.val[v].status # Unstaked) => s.val[v].tokens >= s.par.minStake
 NoEarlyPayout(s) == ~s.early
 NoOverdue(s) == s.phase \in {"ended", "committed"} => \A v \in Users : (s.val[v].ex /\ s.val[v].status = Unstaking) => s.val[v].uat > s.time
 
